@@ -27,6 +27,7 @@ class Edge(NamedTuple):
     ch: tuple  # choices on the path (ordered)
     post: tuple  # watch tuple after the call
     pre: tuple  # watch tuple before the call
+    cfg: tuple = ()  # configuration / oracle values decided on the path: ((tag, value), ...)
 
 
 class Harness:
@@ -60,7 +61,7 @@ class Harness:
         self.ip.keep_terms = set(keep_terms or ())
         self.ip.exact_fields = {"SourceStateWrapper._num_packets_ready", "DestStateWrapper._num_packets_ready"}
         self.ip.zero_fields = {"_PositiveAckProcedureParams.ack_counter", "_AckedModeParams.nak_activity_counter",
-                               "_DestFieldWrapper.current_check_count"}
+                               "_DestFieldWrapper.current_check_count", "_SourceFileParams.progress"}
         self.node0 = self._build()
         self.ip.watch = self.ewatch
 
@@ -188,6 +189,18 @@ class Harness:
             return ()
         return tuple(self.read_path(st, p) for p in self.WATCH[self.which])
 
+    def cfg_snapshot(self, st: Store) -> tuple:
+        out = []
+        for oid, init in self.volatile_init.items():
+            obj = st.heap[oid]
+            for k, v0 in init.items():
+                if isinstance(v0, Lazy) and not isinstance(obj.get(k), Lazy):
+                    out.append((v0.tag, obj.get(k)))
+        for k, v in st.mon.items():
+            if k.startswith("o:"):
+                out.append((k[2:], v))
+        return tuple(sorted(out, key=lambda kv: kv[0]))
+
     def ewatch(self, st: Store) -> tuple:
         """small snapshot attached to every event"""
         if self.self_ref is None:
@@ -264,6 +277,8 @@ class Harness:
                 return 0
             if k == "$interval":
                 return None
+            if k == "$fresh":
+                return False
             return v
         if isinstance(v, E) and v.cls == "ConditionCode" and v.name not in ("NO_ERROR", "$OTHER"):
             return E("ConditionCode", "$OTHER")
@@ -414,13 +429,13 @@ def _w_expand(node: Store) -> tuple:
     for label in labels_for(h, pre, _W["labels"], _W["follow_undrained"]):
         rets, excs = h.run(node, label)
         for r, s in rets:
-            out.append((label, idx_of(s), None, _ret(r), s.ev, tuple(s.ch.items()), h.watch(s)))
+            out.append((label, idx_of(s), None, _ret(r), s.ev, tuple(s.ch.items()), h.watch(s), h.cfg_snapshot(s)))
         for ei, s in excs:
             if ei.cls in h.protocol_exceptions and ei.origin == "explicit":
                 pi = idx_of(s)
             else:
                 pi = None
-            out.append((label, pi, ei, None, s.ev, tuple(s.ch.items()), h.watch(s)))
+            out.append((label, pi, ei, None, s.ev, tuple(s.ch.items()), h.watch(s), h.cfg_snapshot(s)))
     for p in stores:
         p._key = None
     out = (stores, out)
@@ -491,14 +506,14 @@ class ATS:
                     undrained = bool(h.wget(pre, "_pdus_to_be_sent"))
                     stores, out = out
                     ids = [self.node_id(p)[0] for p in stores]
-                    for label, pi, ei, r, ev, ch, post in out:
+                    for label, pi, ei, r, ev, ch, post, cfgs in out:
                         follow = self.follow_undrained or not undrained or label[0] in ("drain", "get_next_packet")
                         did = None
                         if pi is not None:
                             did = ids[pi]
                             if follow and did not in self.expanded:
                                 frontier.append(did)
-                        self._add(Edge(nid, label, did, ei, r, ev, ch, post, pre))
+                        self._add(Edge(nid, label, did, ei, r, ev, ch, post, pre, cfgs))
                 if self.progress:
                     print(f"  [ats {h.which}] expanded {len(self.expanded)} nodes, {len(self.nodes)} known, {len(self.edges)} edges, {time.time() - t0:.0f}s", flush=True)
                 if len(self.nodes) > self.max_nodes:
@@ -534,7 +549,7 @@ class ATS:
                     did, new = self.node_id(p)
                     if follow and did not in self.expanded:
                         work.append(did)
-                    self._add(Edge(nid, label, did, None, _ret(r), s.ev, tuple(s.ch.items()), post, pre))
+                    self._add(Edge(nid, label, did, None, _ret(r), s.ev, tuple(s.ch.items()), post, pre, h.cfg_snapshot(s)))
                 for ei, s in excs:
                     post = h.watch(s)
                     if ei.cls in h.protocol_exceptions and ei.origin == "explicit":
@@ -542,9 +557,9 @@ class ATS:
                         did, new = self.node_id(p)
                         if follow and did not in self.expanded:
                             work.append(did)
-                        self._add(Edge(nid, label, did, ei, None, s.ev, tuple(s.ch.items()), post, pre))
+                        self._add(Edge(nid, label, did, ei, None, s.ev, tuple(s.ch.items()), post, pre, h.cfg_snapshot(s)))
                     else:
-                        self._add(Edge(nid, label, None, ei, None, s.ev, tuple(s.ch.items()), post, pre))
+                        self._add(Edge(nid, label, None, ei, None, s.ev, tuple(s.ch.items()), post, pre, h.cfg_snapshot(s)))
                 if len(self.nodes) > self.max_nodes:
                     raise AnalysisError(f"ATS of the {h.which} handler exceeds {self.max_nodes} nodes")
         self.wall = time.time() - t0
@@ -552,7 +567,13 @@ class ATS:
         self._merge_stats((ip.assumptions, ip.notes, ip.unresolved_calls, ip.env_uncaught, ip.funcs_entered,
                            (ip.stmt_count, ip.calls_total, ip.calls_repo, ip.calls_lib)))
 
+    def _intern(self, x: Any) -> Any:
+        t = self.__dict__.setdefault("_interned", {})
+        return t.setdefault(x, x)
+
     def _add(self, e: Edge) -> None:
+        e = e._replace(ev=self._intern(tuple(self._intern(x) for x in e.ev)), ch=self._intern(e.ch), cfg=self._intern(e.cfg),
+                       pre=self._intern(e.pre), post=self._intern(e.post), label=self._intern(e.label))
         self.out.setdefault(e.src, []).append(len(self.edges))
         self.edges.append(e)
 
